@@ -1594,8 +1594,10 @@ class Module(ABC):
             self.base.externals[key] = jnp.concatenate(
                 [self.base.externals[key], values]
             )
+            # States of synapses are indexed by edges, all other states by nodes.
+            in_view = self._nodes_in_view if key in comp_states else self._edges_in_view
             self.base.external_inds[key] = jnp.concatenate(
-                [self.base.external_inds[key], self._nodes_in_view]
+                [self.base.external_inds[key], in_view]
             )
         else:
             if key in comp_states:
